@@ -1728,6 +1728,7 @@ def _g_map_blocks_local(g, ins):
     (a,) = ins
     need(a.kind in "fi" and a.ndim >= 1 and a.np.size > 0 and a.da is not None)
     need(not isinstance(a.np, np.ma.MaskedArray))
+    need(a.inx == 0 and a.kind == "i")  # b - b.max() is compared exactly: integer inputs only (a float linspace leaf re-sliced by the optimizer differs in the last bit)
     ch = a.da.chunks
     need(all(not (isinstance(c, float) and c != c) for dim in ch for c in dim))
     if a.np.dtype.kind == "i":
